@@ -1174,9 +1174,10 @@ impl Scenario for ExitContract {
          fatal framing error at a random packet | non-ALICE bytes | missing file | empty input) x check mode x \
          -E n (n in 1..255, or absent) x statistics file; the reference run has no display option, then the same \
          input is run with -m, with -w <code list> (codes taken from the messages seen, prefixes of other codes such \
-         as 4/44/440, 9/99/991, 1/10, and absent codes) and with -e N for N around the true count; every run under \
+         as 4/44/440, 9/99/991, 1/10, and absent codes), with -e N for N around the true count, and with -w and -e \
+         together (single-batch inputs: exactly the first N messages carrying a listed code); every run under \
          its own seeded schedule (after a fatal, which errors were counted races with the validators). 1 case in 8 is \
-         an invalid option combination (check sanity its-stave, -p without stave filter / with a non-stave target, \
+         a statistics-mismatch case (clean input, stored statistic perturbed, with and without -m: exit status must be the -E value) and 1 in 8 an invalid option combination (check sanity its-stave, -p without stave filter / with a non-stave target, \
          -E 0, -o without filter, -S without -D, input-stats file with a wrong extension / missing), passed through \
          the real clap parser and validate_args. Oracle: documented exit-status table; Total Errors (report) == \
          total_errors (file) == messages shown without display option; -m shows nothing and changes nothing else; \
@@ -1188,6 +1189,38 @@ impl Scenario for ExitContract {
         let mut rng = Rng::new(seed);
         if case % 8 == 7 {
             return make_rejected(&mut rng);
+        }
+        if case % 8 == 6 {
+            // "N when ... a statistics mismatch was reported", also when muted: a clean input whose only
+            // finding is the drift of a stored statistic (round trip + perturbed leaves, as in C15)
+            let mode_i = rng.usize_below(5);
+            let cfg = GenCfg::swarm(&mut rng, mode_i == 4);
+            let st = gen_conforming(&cfg, &mut rng);
+            let ext = if rng.chance(1, 2) { "json" } else { "toml" };
+            let exit_code = rng.range(2, 255) as i32;
+            let mut parts = s(CHECK_MODES[mode_i]);
+            parts.extend(s(&["-E", &exit_code.to_string()]));
+            let muted = rng.chance(2, 3);
+            if muted {
+                parts.push("-m".into());
+            }
+            let im = pick_input_mode(&mut rng);
+            let mut pa = parts.clone();
+            pa.extend(s(&["-S", "@STATS@", "-D", ext]));
+            let mut a = specgen::spec(im.clone(), &pa, st.bytes());
+            a.stats_ext = ext.to_string();
+            let mut pb = parts.clone();
+            pb.extend(s(&["-i", "@INSTATS@"]));
+            let mut b = specgen::spec(im, &pb, st.bytes());
+            b.stats_ext = ext.to_string();
+            swarm_schedule(&mut b, &mut rng, 300 + st.total_packets() as u64 * 12);
+            return Trial::StatsRt {
+                a,
+                b,
+                exit_code,
+                enumerate_leaves: false,
+                label: format!("stats-mismatch | {}{}", CHECK_MODES[mode_i].join(" "), if muted { " -m" } else { "" }),
+            };
         }
         let class_i = case % 7;
         let mode_i = rng.usize_below(5);
@@ -1297,6 +1330,15 @@ impl Scenario for ExitContract {
         let cap = rng.range(1, 12);
         specs.push(mk(&s(&["-e", &cap.to_string()]), &mut rng));
         kinds.push(format!("cap:{cap}"));
+        // error-code filter and cap together
+        {
+            let l = *rng.pick(&lists);
+            let cap2 = rng.range(1, 6);
+            let mut a = vec!["-e".to_string(), cap2.to_string(), "-w".to_string()];
+            a.extend(l.split_whitespace().map(|x| x.to_string()));
+            specs.push(mk(&a, &mut rng));
+            kinds.push(format!("codes+cap:{l}:{cap2}"));
+        }
         let label = format!("{class} | {} | -E {}", CHECK_MODES[mode_i].join(" "), if exit_code.is_some() { "n" } else { "absent" });
         Trial::ExitContract { specs, kinds, class: class.to_string(), exit_code, label }
     }
